@@ -150,6 +150,12 @@ def run_case(case):
                     fs.remove(d, s)
                 unsynced_files.append((a.disk_names[d].encode(), s))
             hist.append(("unsynced-changes", len(unsynced_files)))
+            if rng.random() < 0.5:
+                # an incomplete sync records the pending state (deleted blocks over stale parity, new blocks without parity)
+                T += rng.randint(1, 5) * DAY
+                r = a.cmd("sync", "-E", "-Z", *rng.choice([["-B", "1"], ["-S", "0", "-B", "1"], ["-S", "1", "-B", "1"], ["-B", "2"]]),
+                          variant=variant, shim={"time": T, "log": False})
+                hist.append(("partial-sync", r.rc))
         # optionally damaged parity blocks (preferably in stripes that also hold a touched file)
         if rng.random() < 0.35:
             c = a.load_content()
@@ -291,6 +297,12 @@ def run_case(case):
                     V.append(("wrong-stripe-verified-without-report", "%s: stripe %d holds damage made by the harness but scrub reported nothing for it" % (label, p), rep))
                     break
             newbad = {p for p, v in inf1.items() if v[1]} - bad0
+            # a stripe that holds blocks without valid parity (deleted, new, replaced: recorded by an incomplete sync) differs
+            # from its parity by design; unless the harness itself damaged a synced block there it must not become bad
+            nb_unsynced = sorted(p for p in newbad if p in unsynced_pos and p not in truly_bad)
+            if nb_unsynced:
+                V.append(("unsynced-stripe-marked-bad", "%s: stripes %s only hold pending (deleted / new / replaced) blocks next to intact synced ones and were marked bad" %
+                          (label, nb_unsynced[:5]), rep))
             if newbad - errpos:
                 V.append(("bad-mark-without-error", "%s: stripes %s marked bad without any reported error" % (label, sorted(newbad - errpos)[:5]), rep))
             if unsynced_files and (newbad & unsynced_err) and not (newbad & unsynced_err & silent):
